@@ -31,16 +31,24 @@ def run(chunks, reader=None, states: set | None = None):
     """Feed all chunks; returns (observations, exception or None, index of the chunk that raised)."""
     reader = reader or new_reader()
     out = []
+    kept = []
+    err = (None, None)
     for i, ch in enumerate(chunks):
         try:
             msgs = reader.read(ch)
         except Exception as ex:
-            return out, ex, i
+            err = (ex, i)
+            break
         for m in msgs:
             out.append(observe(m))
+            kept.append(m)
         if states is not None:
             states.add(bool(reader.is_in_hunt_mode))
-    return out, None, None
+    # a returned message must not change when the reader goes on reading: observe every message again at the end
+    for o, m in zip(out, kept):
+        again = observe(m)
+        o["changed_later"] = any(again[k] != o[k] for k in ("bytes", "valid", "payload"))
+    return out, err[0], err[1]
 
 
 def where(ex: BaseException) -> str:
